@@ -1,7 +1,7 @@
 use vstd::prelude::*;
 use vstd::std_specs::iter::IteratorSpec;
 verus! {
-pub enum DimacsParseError { UnexpectedCharacter(char), MissingHeader, Other }
+pub enum DimacsParseError { UnexpectedCharacter(char), MissingHeader, UnterminatedClause, IncorrectClauseCount { expected: usize, parsed: usize }, Other }
 
 pub open spec fn is_ws(b: u8) -> bool { b == 0x20 || b == 0x09 || b == 0x0A || b == 0x0C || b == 0x0D }
 pub assume_specification [u8::is_ascii_whitespace] (b: &u8) -> (r: bool)
@@ -22,7 +22,17 @@ pub enum ParseState {
     NegativeLiteral,
     Clause,
 }
+pub struct Sink { pub x: u8 }
+#[derive(Clone, Copy)]
+pub struct Header { pub n_clauses: usize }
+impl Header {
+    #[verifier::external_body]
+    pub fn num_clauses(&self) -> (r: usize) ensures r == self.n_clauses { unimplemented!() }
+}
 pub struct DimacsParser {
+    pub sink: Option<Sink>,
+    pub header: Option<Header>,
+    pub clause: Vec<i32>,
     pub buffer: StrBuf,
     pub state: ParseState,
     pub pending_literals: Ghost<nat>,     // literals of the clause being read
@@ -42,8 +52,13 @@ impl DimacsParser {
     { unimplemented!() }
     #[verifier::external_body]
     pub fn init_formula(&mut self) -> (r: Result<(), DimacsParseError>)
-        ensures r is Ok ==> final(self).state == old(self).state && final(self).pending_literals == old(self).pending_literals,
+        ensures r is Ok ==> final(self).state == old(self).state && final(self).pending_literals == old(self).pending_literals
+                    && final(self).sink is Some && final(self).header is Some && final(self).clause == old(self).clause && final(self).parsed_clauses == old(self).parsed_clauses,
+                // a header line that cannot be read is reported as such (invalid / duplicate header), never as a missing header
+                r matches Err(e) ==> !(e is MissingHeader),
     { unimplemented!() }
+    // the sink is created together with the header
+    pub open spec fn wf(&self) -> bool { self.sink is Some <==> self.header is Some }
 
     // format-level line structure: a line begins in StartLine (comments, the header and clause tokens are
     // recognised there); Header and Comment lines run to the next new-line
